@@ -88,6 +88,7 @@ struct Ctx {
     std::ostringstream desc;        // human-readable description of the decoded case
     std::set<std::string> *known = nullptr;   // signatures listed as known findings
     uint64_t extra_evals = 0;       // property may account for inner evaluations
+    uint64_t extra_distinct = 0;    // inner evaluations that are distinct non-trivial cases by construction
 
     uint64_t draw(uint64_t hi) {    // uniform in [0,hi]
         uint64_t v;
@@ -162,12 +163,12 @@ struct Outcome {
     std::string sig, msg;
     std::vector<uint64_t> rec;
     std::vector<std::string> labels; bool nontriv = false; uint64_t key = 0; std::string desc;
-    uint64_t extra_evals = 0;
+    uint64_t extra_evals = 0, extra_distinct = 0;
 };
 
 static inline std::string ser_outcome(const Outcome &o) {
     std::ostringstream os;
-    os << (int)o.kind << '\x1f' << o.key << '\x1f' << (o.nontriv ? 1 : 0) << '\x1f' << o.extra_evals << '\x1f';
+    os << (int)o.kind << '\x1f' << o.key << '\x1f' << (o.nontriv ? 1 : 0) << '\x1f' << o.extra_evals << ':' << o.extra_distinct << '\x1f';
     for (auto &l : o.labels) os << l << '\x1e';
     os << '\x1f' << o.desc << '\x1f' << o.sig << '\x1f' << o.msg << '\x1d';
     return os.str();
@@ -179,6 +180,7 @@ static inline bool parse_outcome(const std::string &recd, Outcome &o) {
     if (f.size() < 8) return false;
     o.kind = (Outcome::Kind)atoi(f[0].c_str()); o.key = strtoull(f[1].c_str(), 0, 10);
     o.nontriv = f[2] == "1"; o.extra_evals = strtoull(f[3].c_str(), 0, 10);
+    { size_t cpos = f[3].find(':'); if (cpos != std::string::npos) o.extra_distinct = strtoull(f[3].c_str() + cpos + 1, 0, 10); }
     { size_t a = 0, b; while ((b = f[4].find('\x1e', a)) != std::string::npos) { o.labels.push_back(f[4].substr(a, b - a)); a = b + 1; } }
     o.desc = f[5]; o.sig = f[6]; o.msg = f[7];
     return true;
@@ -222,7 +224,7 @@ struct Runner {
         catch (Fail &f) { o.kind = Outcome::FAIL; o.sig = f.sig; o.msg = f.msg; }
         catch (Discard &) { o.kind = Outcome::DISCARD; }
         o.rec = c.rec; o.labels = c.labels; o.nontriv = c.nontriv; o.desc = c.desc.str();
-        o.key = c.nontriv_key_set ? c.nontriv_key : c.case_key(); o.extra_evals = c.extra_evals;
+        o.key = c.nontriv_key_set ? c.nontriv_key : c.case_key(); o.extra_evals = c.extra_evals; o.extra_distinct = c.extra_distinct;
         return o;
     }
     Outcome exec_seq(const std::vector<uint64_t> &seq, int size, Shm *sh = nullptr) {
@@ -321,6 +323,7 @@ struct Runner {
     }
     Outcome shrink(Outcome cur, int size, bool iso) {
         int budget = opt.shrink_budget;
+        if (cur.kind == Outcome::HANG || cur.sig.find("hang") != std::string::npos) budget = std::min(budget, 6);  // each attempt may burn the whole CPU limit
         auto attempt = [&](const std::vector<uint64_t> &cand) -> bool {
             if (budget <= 0) return false;
             budget--;
@@ -409,7 +412,7 @@ struct Runner {
         st.evaluations++; st.extra_evals += o.extra_evals;
         if (o.kind == Outcome::DISCARD) { st.discards++; return; }
         for (auto &l : o.labels) st.labels[l]++;
-        if (o.nontriv) st.distinct.insert(o.key);
+        if (o.nontriv && st.distinct.insert(o.key).second) st.distinct_by_construction += o.extra_distinct;
         if (!o.desc.empty()) {
             uint64_t n = st.evaluations;
             bool take = st.samples.size() < 3 || (o.nontriv && st.samples.size() < 6) || (n & (n - 1)) == 0;
